@@ -345,7 +345,7 @@ def run_module(rec, named, nforests, quick):
             if k == 0:
                 rec.sample(dict(pool=[mon.describe(p)[:160] for p in pool[:4]], named=named), limit=2)
         # parse results
-        for text in ['', 'a', 'ab', 'abc', 'abcde', 'v', '1+2', '-1!+2', 'aab1+1abcde', 'vv', '1+2+3abc']:
+        for text in ['', 'a', 'ab', 'abc', 'abcde', 'v', '1+2', '-1!+2', 'aab1+1abcde', 'vvz', '1+2+3abcz']:
             o = observe.observe(g, text)
             if o.outcome[0] == 'value':
                 vals = [v for v in o.value if isinstance(v, g.ParsedObject)]
@@ -366,8 +366,8 @@ def run_module(rec, named, nforests, quick):
 def run_shard(rec):
     quick = rec.tier == 'quick'
     rec.deadline = time.time() + (30 if quick else 240)
-    run_module(rec, named=False, nforests=6 if quick else 150, quick=quick)
-    run_module(rec, named=True, nforests=6 if quick else 150, quick=quick)
+    run_module(rec, named=False, nforests=12 if quick else 200, quick=quick)
+    run_module(rec, named=True, nforests=12 if quick else 200, quick=quick)
 
 
 def replay(rec, rep):
